@@ -74,12 +74,13 @@ PROPS = {
     },
     "C04": {
         "level": "exploration",
-        "level_text": "Generated accepted updates of all three kinds over decorated notes, 5 witness key sets and both storages; the harness's own signature-line scanner and Ed25519/cosignature-v1 verifier check text equality, the log line, exactly one valid line per witness key, the timestamp window of the call, and read-after-write equality; refreshes of a state planted with a day-old cosignature expose short-circuits.",
+        "level_text": "Generated accepted updates of all three kinds over decorated notes, 5 witness key sets and both storages; the harness's own signature-line scanner and Ed25519/cosignature-v1 verifier check text equality, the log line, exactly one valid line per witness key, the timestamp window of the call, and read-after-write equality; refreshes of a state planted with a day-old cosignature expose short-circuits. Part 'pool': read-after-write on a file-backed SQLite store with 2 and 4 pooled connections and a read of the same log slipped into the accepted update's storage-call window.",
         "level_note": "Reads the wall clock (second granularity, inclusive window) - inherent to the freshness clause.",
         "technique": "property-based testing: generated histories and note shapes, independent signature-census oracle (rapid)",
         "assumptions": HIST_ASSUME,
         "parts": {
             "hist": {"bin": "verifh", "run": "TestC04", "checks": {"quick": 500, "thorough": 320000}, "shards": {"quick": 4, "thorough": 16}},
+            "pool": {"bin": "verifh", "run": "TestC04Pool", "kind": "plain"},
         },
     },
     "C08": {
@@ -97,12 +98,13 @@ PROPS = {
     },
     "C16": {
         "level": "exploration",
-        "level_text": "Generated histories over 2-4 logs on both storages; after every request the registered mux handlers and the bundled HTTP client (in-memory transport) are queried for every known ID, unknown and odd IDs and the log list, and compared byte for byte with the witness's state and the set of logs with an accepted update. On the SQL store the list and a held checkpoint are read again with a driver-level storage error injected under the read: whatever is answered 200 must still be exactly the truth, and a held log is never answered 'not found'.",
+        "level_text": "Generated histories over 2-4 logs on both storages; after every request the registered mux handlers and the bundled HTTP client (in-memory transport) are queried for every known ID, unknown and odd IDs and the log list, and compared byte for byte with the witness's state and the set of logs with an accepted update. On the SQL store the list and a held checkpoint are read again with a driver-level storage error injected under the read: whatever is answered 200 must still be exactly the truth, and a held log is never answered 'not found'. Part 'overlap' owns a three-actor schedule (a GET held after its storage read, an accepted update, a second GET issued after the update returned) on both stores: the second GET carries the update's bytes.",
         "level_note": "HTTP layer exercised through gorilla/mux + net/http/httptest, not over sockets (C14 covers the socket path).",
         "technique": "property-based testing: generated histories with a read-after-every-step oracle (rapid)",
         "assumptions": HIST_ASSUME,
         "parts": {
             "hist": {"bin": "verifh", "run": "TestC16", "checks": {"quick": 400, "thorough": 320000}, "shards": {"quick": 4, "thorough": 16}},
+            "overlap": {"bin": "verifh", "run": "TestC16Overlap", "kind": "plain"},
         },
     },
     "C12": {
